@@ -121,27 +121,84 @@ set_option maxRecDepth 200000 in
 theorem byte_facts : ∀ b, b < 256 →
     m1 b ≤ b ∧ s2 b % 16 ≤ 4 ∧ s2 b / 16 ≤ 4 ∧ pcb b = cbN b 8 := by decide
 
-/-! ### the routine on `Nat` -/
+/-! ### the routine, stage by stage, on words and on their values -/
 
-/-- `countSetBits` on the value of the word (every `BitVec` operation replaced by its `toNat` form) -/
-def swarN (n : Nat) : Nat :=
-  let a := (2 ^ 64 - ((n >>> 1) &&& 0x5555555555555555) + n) % 2 ^ 64
-  let b := (((a >>> 2) &&& 0x3333333333333333) + (a &&& 0x3333333333333333)) % 2 ^ 64
-  let c := (b + (b >>> 4)) % 2 ^ 64
-  let d := c &&& 0x0f0f0f0f0f0f0f0f
-  let e := (d * 0x0101010101010101) % 2 ^ 64
-  e >>> 56
+def w1 (x : W) : W := x - ((x >>> 1) &&& 0x5555555555555555#64)
+def w2 (x : W) : W := ((x >>> 2) &&& 0x3333333333333333#64) + (x &&& 0x3333333333333333#64)
+def w3 (x : W) : W := x + (x >>> 4)
+def w4 (x : W) : W := x &&& 0x0f0f0f0f0f0f0f0f#64
+def w5 (x : W) : Nat := ((x * 0x0101010101010101#64) >>> 56).toNat
 
-theorem countSetBits_eq_swarN (x : W) : countSetBits x = Int.ofNat (swarN x.toNat) := by
-  unfold countSetBits swarN
-  simp only [BitVec.toNat_ushiftRight, BitVec.toNat_mul, BitVec.toNat_and, BitVec.toNat_add, BitVec.toNat_sub,
-    BitVec.toNat_ofNat]
-  rfl
+/-- `countSetBits` is the composition of its five statements -/
+theorem countSetBits_stages (x : W) : countSetBits x = Int.ofNat (w5 (w4 (w3 (w2 (w1 x))))) := rfl
+
+def n1 (n : Nat) : Nat := (2 ^ 64 - ((n >>> 1) &&& 0x5555555555555555) + n) % 2 ^ 64
+def n2 (a : Nat) : Nat := (((a >>> 2) &&& 0x3333333333333333) + (a &&& 0x3333333333333333)) % 2 ^ 64
+def n3 (b : Nat) : Nat := (b + (b >>> 4)) % 2 ^ 64
+def n4 (c : Nat) : Nat := c &&& 0x0f0f0f0f0f0f0f0f
+def n5 (d : Nat) : Nat := ((d * 0x0101010101010101) % 2 ^ 64) >>> 56
+
+theorem w1_toNat (x : W) : (w1 x).toNat = n1 x.toNat := by
+  unfold w1 n1
+  simp only [BitVec.toNat_ushiftRight, BitVec.toNat_and, BitVec.toNat_sub, BitVec.toNat_ofNat]
+theorem w2_toNat (x : W) : (w2 x).toNat = n2 x.toNat := by
+  unfold w2 n2
+  simp only [BitVec.toNat_ushiftRight, BitVec.toNat_and, BitVec.toNat_add, BitVec.toNat_ofNat]
+theorem w3_toNat (x : W) : (w3 x).toNat = n3 x.toNat := by
+  unfold w3 n3
+  simp only [BitVec.toNat_ushiftRight, BitVec.toNat_add]
+theorem w4_toNat (x : W) : (w4 x).toNat = n4 x.toNat := by
+  unfold w4 n4
+  simp only [BitVec.toNat_and, BitVec.toNat_ofNat]
+theorem w5_toNat (x : W) : w5 x = n5 x.toNat := by
+  have h01 : (0x0101010101010101#64).toNat = 0x0101010101010101 := by decide
+  unfold w5 n5
+  rw [BitVec.toNat_ushiftRight, BitVec.toNat_mul, h01]
+
+/-- the value computed by `countSetBits`, as a function of the value of the word -/
+theorem countSetBits_eq_nat (x : W) : countSetBits x = Int.ofNat (n5 (n4 (n3 (n2 (n1 x.toNat))))) := by
+  rw [countSetBits_stages, w5_toNat, w4_toNat, w3_toNat, w2_toNat, w1_toNat]
 
 theorem exists_bytes (n : Nat) (h : n < 2 ^ 64) : ∃ b0 b1 b2 b3 b4 b5 b6 b7 : Nat,
     (b0 < 256 ∧ b1 < 256 ∧ b2 < 256 ∧ b3 < 256 ∧ b4 < 256 ∧ b5 < 256 ∧ b6 < 256 ∧ b7 < 256)
     ∧ n = lanes [b0, b1, b2, b3, b4, b5, b6, b7] :=
   ⟨n % 256, n / 256 % 256, n / 256 ^ 2 % 256, n / 256 ^ 3 % 256, n / 256 ^ 4 % 256, n / 256 ^ 5 % 256,
     n / 256 ^ 6 % 256, n / 256 ^ 7 % 256, by omega, by simp only [lanes]; omega⟩
+
+/-! ### the stages on eight byte lanes -/
+
+theorem mask8 (s c : Nat) (hc : c < 2 ^ (8 - s)) (bs : List Nat) (hlen : bs.length = 8) (hall : ∀ b ∈ bs, b < 256) :
+    (lanes bs >>> s) &&& lanes (List.replicate 8 c) = lanes (bs.map fun b => (b >>> s) &&& c) := by
+  rw [← hlen]; exact lanes_shift_and s c hc bs hall
+
+theorem all8 (b0 b1 b2 b3 b4 b5 b6 b7 : Nat)
+    (h : b0 < 256 ∧ b1 < 256 ∧ b2 < 256 ∧ b3 < 256 ∧ b4 < 256 ∧ b5 < 256 ∧ b6 < 256 ∧ b7 < 256) :
+    ∀ b ∈ [b0, b1, b2, b3, b4, b5, b6, b7], b < 256 := by
+  intro b hb
+  simp only [List.mem_cons, List.mem_nil_iff, or_false] at hb
+  omega
+
+theorem e55 : 0x5555555555555555 = lanes (List.replicate 8 0x55) := by decide
+theorem e33 : 0x3333333333333333 = lanes (List.replicate 8 0x33) := by decide
+theorem e0f : 0x0f0f0f0f0f0f0f0f = lanes (List.replicate 8 0x0f) := by decide
+
+/-- stage 1 works lane by lane: no borrow crosses a byte boundary -/
+theorem n1_lanes (b0 b1 b2 b3 b4 b5 b6 b7 : Nat)
+    (h : b0 < 256 ∧ b1 < 256 ∧ b2 < 256 ∧ b3 < 256 ∧ b4 < 256 ∧ b5 < 256 ∧ b6 < 256 ∧ b7 < 256) :
+    n1 (lanes [b0, b1, b2, b3, b4, b5, b6, b7]) = lanes [s1 b0, s1 b1, s1 b2, s1 b3, s1 b4, s1 b5, s1 b6, s1 b7] := by
+  have L := mask8 1 0x55 (by decide) _ rfl (all8 _ _ _ _ _ _ _ _ h)
+  unfold n1
+  rw [e55, L]
+  simp only [List.map, lanes, s1, m1]
+  have f0 := (byte_facts b0 h.1).1
+  have f1 := (byte_facts b1 h.2.1).1
+  have f2 := (byte_facts b2 h.2.2.1).1
+  have f3 := (byte_facts b3 h.2.2.2.1).1
+  have f4 := (byte_facts b4 h.2.2.2.2.1).1
+  have f5 := (byte_facts b5 h.2.2.2.2.2.1).1
+  have f6 := (byte_facts b6 h.2.2.2.2.2.2.1).1
+  have f7 := (byte_facts b7 h.2.2.2.2.2.2.2).1
+  simp only [m1] at f0 f1 f2 f3 f4 f5 f6 f7
+  omega
 
 end BS
